@@ -1,7 +1,7 @@
 """C12 Condition estimate is a valid one-sided bound; growth factor matches factors  —  R3 (driver cond group, ?gscon), structural rules (?PivotGrowth), R9."""
 from ..facts import Program
 from ..run import Check, AnalysisBroken
-from ..rules import cond, r9_sibling
+from ..rules import cond, r9_sibling, kernels
 from ..rules.effects import PathEffects
 from . import _drv, _gssvx, _expert
 
@@ -18,7 +18,7 @@ def run(tier):
         'L, U) when asked, ?PivotGrowth(*info, ...) on a singular return. R3 on ?gscon (norm letter x kase returned by ?lacon2): '
         'kase == kase1 -> sp_?trsv(L,N,U) then (U,N,N), otherwise (U,T,N) then (L,T,U), kase1 = 1 iff one-norm; rcond = (1/ainvnm)/anorm. '
         '?PivotGrowth: inverse of perm_c built by inversion, A read through it, every update of the result inside the column loop bounded by '
-        'ncols. R9 siblings (incl. ?lacon2, dzsum1/scsum1, izmax1/icmax1). Not decided: rcond <= true value, rcond <= 1, growth equals its '
+        'ncols. The non-transposed solves of sp_?trsv (used only by ?gscon) keep their gemv scratch vector cleared between supernodes (kernel rule). R9 siblings (incl. ?lacon2, dzsum1/scsum1, izmax1/icmax1). Not decided: rcond <= true value, rcond <= 1, growth equals its '
         'definition (values).')
     cfgs = ['tested'] if tier == 'quick' else ['tested', 'cblas', 'idx64']
     chk.configs = cfgs
@@ -36,6 +36,7 @@ def run(tier):
             n += len(leaves)
             n2 += cond.gscon_oracle(chk, 'C12.D2', prog, eff, p, cfgname)
             cond.pivotgrowth_rules(chk, 'C12.D3', prog, p, cfgname)
+        kernels.run_basic(chk, 'C12.kern', prog, cfgname, ('trsv',), floor_scratch=4)
         if n < 4 * 100 or n2 < 4 * 9:
             raise AnalysisBroken('C12: %d driver leaves, %d gscon leaves; floors 400, 36' % (n, n2))
         if cfgname == 'tested':
